@@ -153,6 +153,33 @@ def generate(rng, tier):
     for j, pre in enumerate(pfx_classes):
         A("bsm.tamper", kb([KT, 182, 153][j % 3]), j % 2, "48656c6c6f", pre, "q", [0x6f, 0x00, 0x90, 0x05, 0xff][j])
         A("bsm.tamper", kb([KT, 182, 153][(j + 1) % 3]), (j + 1) % 2, "48656c6c6f", pre, "o", 0)
+    # --- RELATED messages (whitespace / BOM / NUL added or stripped, case, doubled space) through all four verify entry points
+    M1, M2 = b"Hello Bitcoin message", b" \tHello Bitcoin \n"
+    for t in range(15):
+        A("bsm.tamper", kb([KT, 182, 153][t % 3]), t % 2, M1.hex(), pfx_classes[t % 5], "w", t)
+    for t in ([4, 0, 7, 8, 9, 1] if not thorough else range(15)):
+        A("bsm.tamper", kb(KT), (t + 1) % 2, M2.hex(), pfx_classes[(t + 2) % 5], "w", t)
+    A("bsm.tamper", kb(KT), 1, b"HELLO".hex(), "00", "w", 7)        # upper case of an upper-case message: the SAME message, must verify
+    A("bsm.tamper", kb(KT), 0, b"hello".hex(), "6f", "w", 4)        # nothing to strip: the SAME message, must verify
+    # --- crafted (key, nonce, message): d = -2z/r mod n makes s*R = -(z*G) (same x as z*G, NOT the identity case): must sign,
+    #     recover and verify; the genuine identity case s*R = z*G (explicit signature) must be refused
+    import hashlib
+    def _cs(n):
+        return bytes([n]) if n < 253 else b"\xfd" + n.to_bytes(2, "little")
+    def _z(m):
+        pre = _cs(24) + b"Bitcoin Signed Message:\n" + _cs(len(m)) + m
+        return int.from_bytes(hashlib.sha256(hashlib.sha256(pre).digest()).digest(), "big") % N
+    for j, (k, m) in enumerate([(7, b"abc"), (KT, b"Hello Bitcoin!"), (N - 3, b""), (2 ** 200 + 1, b"x" * 300)] + ([(rng.randrange(1, N), rnd_bytes(rng, 20)) for _ in range(6)] if thorough else [])):
+        R = pmul(k, G); r = R[0] % N; z = _z(m)
+        d = (-2 * z * pow(r, -1, N)) % N
+        for c in (0, 1):
+            A("bsm.sign_k", kb(d), c, kb(k), (c + j) % 2, m.hex(), pfx_classes[(j + c) % 5])
+        # identity case as an explicit signature: s = z/k (or n - s with the other parity), recovered point = infinity
+        s_ = z * pow(k, -1, N) % N; odd = R[1] & 1
+        if s_ > N // 2:
+            s_ = N - s_; odd ^= 1
+        for hd in (27 + odd, 31 + odd):
+            A("bsm.verify", m.hex(), bytes([hd]).hex() + r.to_bytes(32, "big").hex() + s_.to_bytes(32, "big").hex(), pfx_classes[j % 5], rnd_bytes(rng, 20).hex())
     # --- length bands of the message: every length-prefix class boundary and low bytes that look like prefixes (sign only: cheap)
     for n in [251, 255, 256, 257, 508, 509, 510, 511, 512, 0xfd + 256, 0xffff - 1]:
         A("bsm.sign", kb(KT), n % 2, "l:%d:%d" % (n, n))
